@@ -150,6 +150,152 @@ class Tr:
         return UNSUPPORTED
 
 
+PL_CMP = {"eq": "eq", "ne": "ne", "lt": "lt", "le": "le", "gt": "gt", "ge": "ge"}
+
+
+class PlTr:
+    """the polars twin: `data.lazyframe.select(<expr over pl.col(data.key)>)`"""
+
+    def __init__(self, fn: ast.FunctionDef, data_name: str):
+        self.fn = fn
+        self.data = data_name
+        self.params = [a.arg for a in fn.args.args][1:]
+        self.anchor = {}            # pattern parameter -> "group" / "caret" (how str_matches anchors it)
+
+    # ---- helpers ---------------------------------------------------------
+    def resolve(self, e, env):
+        seen = 0
+        while isinstance(e, ast.Name) and e.id in env and seen < 10:
+            e = env[e.id]
+            seen += 1
+        return e
+
+    def is_col(self, e, env):
+        e = self.resolve(e, env)
+        return (isinstance(e, ast.Call) and ast.unparse(e.func) == "pl.col" and len(e.args) == 1
+                and ast.unparse(e.args[0]) == f"{self.data}.key")
+
+    def is_nchars(self, e, env):
+        e = self.resolve(e, env)
+        return (isinstance(e, ast.Call) and isinstance(e.func, ast.Attribute) and e.func.attr == "len_chars"
+                and isinstance(e.func.value, ast.Attribute) and e.func.value.attr == "str"
+                and self.is_col(e.func.value.value, env) and not e.args and not e.keywords)
+
+    def arg(self, e):
+        if isinstance(e, ast.Name) and e.id in self.params:
+            return e.id
+        return None
+
+    def expr(self, e, env) -> str:
+        e = self.resolve(e, env)
+        if isinstance(e, ast.IfExp) and isinstance(e.test, ast.Name) and e.test.id in self.params:
+            return f'(.ifFlag "{e.test.id}" {self.expr(e.body, env)} {self.expr(e.orelse, env)})'
+        if not (isinstance(e, ast.Call) and isinstance(e.func, ast.Attribute)):
+            return UNSUPPORTED
+        f, recv = e.func, e.func.value
+        kws = {k.arg: k.value for k in e.keywords}
+        if f.attr in PL_CMP and len(e.args) == 1 and not kws:
+            a = self.arg(e.args[0])
+            if a and self.is_col(recv, env):
+                return f'(.cmp .{PL_CMP[f.attr]} (.data) (.arg "{a}"))'
+            if a and self.is_nchars(recv, env):
+                return f'(.strLenCmp .{PL_CMP[f.attr]} "{a}")'
+            return UNSUPPORTED
+        if f.attr == "is_between" and len(e.args) == 2 and not kws and self.is_nchars(recv, env):
+            a, b = self.arg(e.args[0]), self.arg(e.args[1])
+            if a and b:
+                return f'(.and (.strLenCmp .le "{b}") (.strLenCmp .ge "{a}"))'
+            return UNSUPPORTED
+        if f.attr == "and_" and len(e.args) == 1 and not kws:
+            return f"(.and {self.expr(recv, env)} {self.expr(e.args[0], env)})"
+        if f.attr == "or_" and len(e.args) == 1 and not kws:
+            return f"(.or {self.expr(recv, env)} {self.expr(e.args[0], env)})"
+        if f.attr == "not_" and not e.args and not kws:
+            return f"(.not {self.expr(recv, env)})"
+        if f.attr == "is_in" and len(e.args) == 1 and not kws and self.is_col(recv, env):
+            a = self.arg(e.args[0])
+            return f'(.isin "{a}")' if a else UNSUPPORTED
+        # str namespace
+        if isinstance(recv, ast.Attribute) and recv.attr == "str" and self.is_col(recv.value, env):
+            if f.attr in ("starts_with", "ends_with") and len(e.args) == 1 and not kws:
+                a = self.arg(e.args[0])
+                ctor = "strStartswith" if f.attr == "starts_with" else "strEndswith"
+                return f'(.{ctor} "{a}")' if a else UNSUPPORTED
+            if f.attr == "contains":
+                pat = kws.get("pattern", e.args[0] if e.args else None)
+                a = self.arg(pat) if pat is not None else None
+                lit = kws.get("literal")
+                if a is None or (lit is not None and not (isinstance(lit, ast.Constant) and lit.value is False)):
+                    return UNSUPPORTED
+                how = self.anchor.get(a)
+                if how == "group":
+                    return f'(.strMatch "{a}")'          # search for ^(?:p) = match p at the start
+                if how == "caret":
+                    return f'(.strMatchCaret "{a}")'     # search for ^p: only the first alternative is anchored
+                if how is None:
+                    return f'(.strContains "{a}")'
+        return UNSUPPORTED
+
+    # ---- statements ----------------------------------------------------------
+    def none_test(self, t):
+        return Tr.none_test(self, t)
+
+    def pattern_stmt(self, s):
+        """statements that rewrite a pattern parameter; returns True when recognised"""
+        if isinstance(s, ast.Assign) and len(s.targets) == 1 and isinstance(s.targets[0], ast.Name) \
+                and s.targets[0].id in self.params:
+            name, v = s.targets[0].id, s.value
+            # pattern = pattern.pattern if isinstance(pattern, re.Pattern) else pattern
+            if ast.unparse(v).replace(" ", "") == f"{name}.patternifisinstance({name},re.Pattern)else{name}":
+                return True
+            if isinstance(v, ast.JoinedStr):
+                parts = v.values
+                if (len(parts) == 3 and isinstance(parts[0], ast.Constant) and parts[0].value == "^(?:"
+                        and isinstance(parts[1], ast.FormattedValue) and getattr(parts[1].value, "id", None) == name
+                        and isinstance(parts[2], ast.Constant) and parts[2].value == ")"):
+                    self.anchor[name] = "group"
+                    return True
+                if (len(parts) == 2 and isinstance(parts[0], ast.Constant) and parts[0].value == "^"
+                        and isinstance(parts[1], ast.FormattedValue) and getattr(parts[1].value, "id", None) == name):
+                    self.anchor[name] = "caret"
+                    return True
+        # if not pattern.startswith("^"): pattern = f"^{pattern}"
+        if (isinstance(s, ast.If) and not s.orelse and len(s.body) == 1
+                and ast.unparse(s.test).replace(" ", "").replace('"', "'") in
+                [f"not{p}.startswith('^')" for p in self.params]):
+            return self.pattern_stmt(s.body[0])
+        return False
+
+    def block(self, stmts, env) -> str:
+        if not stmts:
+            return UNSUPPORTED
+        s, rest = stmts[0], stmts[1:]
+        if isinstance(s, ast.Expr) and isinstance(s.value, ast.Constant):
+            return self.block(rest, env)
+        if self.pattern_stmt(s):
+            return self.block(rest, env)
+        if isinstance(s, ast.Return):
+            v = s.value
+            if (isinstance(v, ast.Call) and ast.unparse(v.func) == f"{self.data}.lazyframe.select" and len(v.args) == 1
+                    and not v.keywords):
+                return self.expr(v.args[0], env)
+            return UNSUPPORTED
+        if isinstance(s, ast.Raise):
+            return ".raise"
+        if isinstance(s, ast.Assign) and len(s.targets) == 1 and isinstance(s.targets[0], ast.Name):
+            return self.block(rest, dict(env, **{s.targets[0].id: s.value}))
+        if isinstance(s, ast.If):
+            names = self.none_test(s.test)
+            if names is None:
+                return UNSUPPORTED
+            ends = lambda b: bool(b) and isinstance(b[-1], (ast.Return, ast.Raise))  # noqa: E731
+            t = self.block(s.body if ends(s.body) else s.body + rest, env)
+            e = self.block((s.orelse if ends(s.orelse) else s.orelse + rest) if s.orelse else rest, env)
+            lst = "[" + ", ".join(f'"{n}"' for n in names) + "]"
+            return f"(.ifNone {lst} {t} {e})"
+        return UNSUPPORTED
+
+
 def extract_file(path: Path, decorator="register_builtin_check") -> dict[str, str]:
     tree = ast.parse(path.read_text())
     out = {}
@@ -166,6 +312,24 @@ def extract_file(path: Path, decorator="register_builtin_check") -> dict[str, st
     return out
 
 
+def extract_polars(path: Path, decorator="register_builtin_check") -> dict[str, str]:
+    tree = ast.parse(path.read_text())
+    out = {}
+    for node in tree.body:
+        if not isinstance(node, ast.FunctionDef):
+            continue
+        registered = any(
+            isinstance(d, ast.Call) and getattr(d.func, "id", getattr(d.func, "attr", None)) == decorator
+            for d in node.decorator_list)
+        if not registered or not node.args.args:
+            continue
+        try:
+            out[node.name] = PlTr(node, node.args.args[0].arg).block(node.body, {})
+        except Exception:  # noqa: BLE001
+            out[node.name] = UNSUPPORTED
+    return out
+
+
 def render(repo: Path) -> str:
     pandas = extract_file(repo / "pandera/backends/pandas/builtin_checks.py")
     lines = [
@@ -177,6 +341,9 @@ def render(repo: Path) -> str:
     ]
     items = [f'  ("{k}", {v})' for k, v in pandas.items()]
     lines.append(",\n".join(items))
+    lines += ["]", "", "def polarsBuiltins : List (String × CE) := ["]
+    polars = extract_polars(repo / "pandera/backends/polars/builtin_checks.py")
+    lines.append(",\n".join(f'  ("{k}", {v})' for k, v in polars.items()))
     lines += ["]", "", "end Pandera.Generated", ""]
     return "\n".join(lines)
 
